@@ -44,6 +44,11 @@ type c19Case struct {
 	CLI         bool     `json:"cli"`
 	Via         string   `json:"via,omitempty"` // CLI: "p" (-p rel), "abs" (-p absolute), "P" (-P list file), "p2" (after a good -p patch)
 	Tags        []string `json:"tags,omitempty"`
+	// BOM: the patch file starts with a UTF-8 byte order mark. Either that
+	// is what the diagnostic points at (1:1), or the mark is put up with
+	// and the fault is reported where it is (three bytes further right on
+	// line 1) - nothing else.
+	BOM bool `json:"bom,omitempty"`
 }
 
 // The Go file the CLI is pointed at. Every body template of the generator
@@ -116,6 +121,23 @@ func evalC19(cs *c19Case) (sig, msg string, out c19Outcome) {
 		// text three lines further down, under another name. What a
 		// diagnostic says is a function of the patch it is about.
 		run.ParseOnly("decoy-"+cs.Name, append([]byte("# decoy\n# decoy\n# decoy\n"), cs.Patch...))
+		if cs.BOM {
+			_, r := run.ParseOnly(cs.Name, append([]byte("\xef\xbb\xbf"), cs.Patch...))
+			if r.Failed() {
+				out.Status = "foreign"
+				return "", "", out
+			}
+			col := cs.Col
+			if cs.Line == 1 {
+				col += 3
+			}
+			if r.ParseErr == "" {
+				return "accepted:" + cs.Fault + ":bom", fmt.Sprintf("patch.Parse accepted a patch (behind a byte order mark) with a %s fault\npatch:\n%s", cs.Fault, c19Show(cs.Patch)), out
+			}
+			if !c19HasPos(r.ParseErr, cs.Name, 1, 1) && !c19HasPos(r.ParseErr, cs.Name, cs.Line, col) && !(cs.AltCol > 0 && c19HasPos(r.ParseErr, cs.Name, cs.Line, cs.AltCol+col-cs.Col)) {
+				return "position:" + cs.Fault + ":bom", fmt.Sprintf("%s fault behind a byte order mark: the mark is at %s, the offending token at %s, but patch.Parse reported %q\npatch (without the mark):\n%s", cs.Fault, c19Pos(cs.Name, 1, 1), c19Pos(cs.Name, cs.Line, col), r.ParseErr, c19Show(cs.Patch)), out
+			}
+		}
 		_, r := run.ParseOnly(cs.Name, cs.Patch)
 		if r.Failed() {
 			out.Status = "foreign" // crash or hang: property C08
@@ -181,6 +203,15 @@ func c19CLI(cs *c19Case) (sig, msg, status string) {
 	case "p2":
 		files["good.patch"] = c19GoodPatch
 		args = []string{"-p", "good.patch", "-p", path, "t.go"}
+	case "p+P":
+		// the rejected patch with -p, a good one in a -P list
+		files["good.patch"] = c19GoodPatch
+		files["patches.list"] = "good.patch\n"
+		args = []string{"-p", path, "-P", "patches.list", "t.go"}
+	case "P+p":
+		files["good.patch"] = c19GoodPatch
+		files["patches.list"] = "good.patch\n"
+		args = []string{"-P", "patches.list", "-p", path, "t.go"}
 	default:
 		args = []string{"-p", path, "t.go"}
 	}
@@ -918,7 +949,7 @@ func c19GenReject(rt *rapid.T, repoPatches []corpus.File) *c19Case {
 
 func c19DrawVia(rt *rapid.T, cs *c19Case) {
 	cs.Name = rapid.SampledFrom([]string{"p.patch", "p.patch", "fix.patch", "sub/dir/my.patch", "patches/é.patch", "a.b/c", "x-y_z.patch", "fix%20bug.patch", "100%.patch", "50%done/fix %s.patch", "a:b.patch", "with space/p q.patch"}).Draw(rt, "name")
-	cs.Via = rapid.SampledFrom([]string{"p", "p", "p", "abs", "P", "p2"}).Draw(rt, "via")
+	cs.Via = rapid.SampledFrom([]string{"p", "p", "p", "abs", "P", "p2", "p+P", "P+p"}).Draw(rt, "via")
 }
 
 // ---------------------------------------------------------------------------
@@ -994,6 +1025,7 @@ func TestC19(t *testing.T) {
 		} else {
 			cs = c19GenPatch(rt, rapid.SampledFrom(faults).Draw(rt, "fault"))
 			cs.CLI = cliEvery > 0 && rapid.IntRange(0, cliEvery-1).Draw(rt, "cli") == 0
+			cs.BOM = rapid.IntRange(0, 9).Draw(rt, "bom") == 0
 		}
 		c19DrawVia(rt, cs)
 		sig, msg, out := evalC19(cs)
